@@ -99,6 +99,8 @@ func k16Shape(src string, keepComments bool) (string, bool) {
 // end tags that close an open p element in the tree construction stage (handled by name, "generate implied end tags")
 var closesP = setOf("address article aside blockquote body button caption center dd details dialog dir div dl dt fieldset figcaption figure footer form h1 h2 h3 h4 h5 h6 header hgroup html li listing main menu nav object ol pre section summary table tbody td template tfoot th thead tr ul p")
 
+var stdKeepP = setOf("a audio del ins map noscript video")
+
 func k17Shape(src string) (string, bool) {
 	toks := lexAll(src)
 	for i, t := range toks {
@@ -109,7 +111,9 @@ func k17Shape(src string) (string, bool) {
 		for j < len(toks) && (toks[j].tt == html.TextToken && allWS(toks[j].data) || toks[j].tt == html.CommentToken) {
 			j++
 		}
-		if j < len(toks) && toks[j].tt == html.EndTagToken && !closesP[toks[j].name] {
+		// parents named by the standard's rule for p (a, audio, del, ins, map, noscript, video) are handled by
+		// the minifier on the pinned tree; a failure there is not the known defect.
+		if j < len(toks) && toks[j].tt == html.EndTagToken && !closesP[toks[j].name] && !stdKeepP[toks[j].name] {
 			return "</" + toks[j].name + ">", true
 		}
 	}
